@@ -217,7 +217,8 @@ func getParentNonPayloadFieldBounds(buf []byte, hdrFrom, hdrTo int) (iprotobuf.F
 		return idf, sigf, hdrf, err
 	}
 
-	if splitf.IsMissing() {
+	if splitf.IsMissing() || splitf.ValueFrom == splitf.To {
+		// no split header or an empty one: parent fields are missing
 		return idf, sigf, hdrf, nil
 	}
 
